@@ -531,6 +531,23 @@ func enumerateRpc(b *BareNode, accounts []types.Address, r *reading) {
 	g("embedded.swap.getLegacyPillars", func() string { return jse(swap.GetLegacyPillars()) })
 	g("embedded.accelerator.getAll", func() string { return jse(acc.GetAll(0, 1000)) })
 	g("ledger.getMomentumsByPage", func() string { return jse(ledger.GetMomentumsByPage(0, 10)) })
+	// the history of the pillars per finished epoch, and per pillar (every pillar name a branch of an experiment may register)
+	epochs := uint64(0)
+	if fm, err := b.Ch.GetFrontierMomentumStore().GetFrontierMomentum(); err == nil {
+		epochs = (fm.TimestampUnix - b.Ch.GetGenesisMomentum().TimestampUnix) / uint64(consensus.EpochDuration.Seconds())
+	}
+	for e := uint64(0); e <= epochs; e++ {
+		e := e
+		g(fmt.Sprintf("embedded.pillar.getPillarsHistoryByEpoch(%d)", e), func() string { return jse(plr.GetPillarsHistoryByEpoch(e, 0, 100)) })
+	}
+	for _, name := range []string{gm.Pillar1Name, gm.Pillar4Name, gm.Pillar5Name} {
+		name := name
+		g("embedded.pillar.getPillarEpochHistory("+name+")", func() string { return jse(plr.GetPillarEpochHistory(name, 0, 10)) })
+	}
+	br := embedded.NewBridgeApi(z)
+	g("embedded.bridge.getAllNetworks", func() string { return jse(br.GetAllNetworks(0, 100)) })
+	g("embedded.bridge.getAllWrapTokenRequests", func() string { return jse(br.GetAllWrapTokenRequests(0, 100)) })
+	g("embedded.bridge.getAllUnwrapTokenRequests", func() string { return jse(br.GetAllUnwrapTokenRequests(0, 100)) })
 }
 
 func enumerateNode(b *BareNode, accounts []types.Address, rpc bool) *reading {
